@@ -28,7 +28,7 @@ def run_one(m, args):
             tests = "tests:" + ("pass" if t.returncode == 0 else "FAIL")
         props = m.get("props", "all")
         out = tempfile.mkdtemp(prefix="wu-selftest-ev-")
-        r = subprocess.run([os.path.join(VERIF, "bin", "wucheck"), "-prop", props, "-repo", d, "-verif", VERIF, "-out", out], env=ENV, capture_output=True, text=True)
+        r = subprocess.run([os.environ.get("WUCHECK", os.path.join(VERIF, "bin", "wucheck")), "-prop", props, "-repo", d, "-verif", VERIF, "-out", out], env=ENV, capture_output=True, text=True)
         shutil.rmtree(out, ignore_errors=True)
         viol = []
         cur = None
